@@ -472,6 +472,160 @@ theorem gen_try_alloc_slice_clone (E M esz eal : Nat) (h : Val → Val) (src : L
   funext s' p
   simp [try_slice_clone_loop_eq, slice_clone_loop, bind]
 
+/-! ## `alloc_try_with` / `try_alloc_try_with`: the whole functions, over the rewind region of `Gen/FnRewind.lean` -/
+
+theorem read_val_last (t : TS) (p : Nat) (v : Val) : read_val p { t with wr := t.wr ++ [(p, v)] } = some v := by
+  simp [read_val]
+
+/-- what follows the reservation in both functions, for the value `v` the initialiser returned: the value is in the slot; `Ok`
+hands out the payload inside the slot and rewinds nothing; `Err` runs the rewind region with the footer and the finger recorded
+*on entry* and hands the error value back -/
+def afterInit (rewind : Chunk → Nat → Nat → St → St × Outcome Unit) (entry : St) (E okOff : Nat) (isOk : Val → Bool) (p : Nat) (t' : TS) (v : Val) :
+    TS × Outcome (Except Val Nat) :=
+  let t'' : TS := { t' with wr := t'.wr ++ [(p, v)] }
+  if isOk v then (t'', .ok (.ok (p + okOff)))
+  else bind (liftS (rewind (entry.a.cur E) (entry.a.cur E).ptr p) t'') fun t3 _ => (t3, .ok (.error v))
+
+/-- `alloc_try_with(f)`, for any initialiser `f` (it may allocate from the same arena, or panic): space for the `Result` first —
+a failed reservation runs nothing —, then `f` once on the state after the reservation, its value written into the slot, then
+`afterInit` -/
+theorem gen_alloc_try_with (E M rsz ral okOff : Nat) (isOk : Val → Bool) (f : Clo) (t : TS) :
+    Gen.Fn.t_alloc_try_with E M rsz ral okOff isOk f t =
+      afterAlloc t (Gen.Fn.alloc_layout E M ⟨rsz, ral⟩ t.st) fun s' p =>
+        bind (f 0 { t with st := s', calls := t.calls ++ [0] }) fun t' v =>
+          afterInit (Gen.Fn.alloc_try_with_rewind E M) t.st E okOff isOk p t' v := by
+  unfold Gen.Fn.t_alloc_try_with
+  simp only []
+  rw [gen_alloc_with]
+  unfold afterAlloc
+  rcases Gen.Fn.alloc_layout E M ⟨rsz, ral⟩ t.st with ⟨s', o⟩
+  cases o with
+  | ok p =>
+    simp only []
+    rcases f 0 { t with st := s', calls := t.calls ++ [0] } with ⟨t', o2⟩
+    cases o2 with
+    | ok v => simp only [bind, read_val_last, afterInit]
+    | _ => rfl
+  | _ => rfl
+
+theorem gen_try_alloc_try_with (E M rsz ral okOff : Nat) (isOk : Val → Bool) (f : Clo) (t : TS) :
+    Gen.Fn.t_try_alloc_try_with E M rsz ral okOff isOk f t =
+      afterAlloc t (Gen.Fn.try_alloc_layout E M ⟨rsz, ral⟩ t.st) fun s' p =>
+        bind (f 0 { t with st := s', calls := t.calls ++ [0] }) fun t' v =>
+          afterInit (Gen.Fn.try_alloc_try_with_rewind E M) t.st E okOff isOk p t' v := by
+  unfold Gen.Fn.t_try_alloc_try_with
+  simp only []
+  rw [gen_try_alloc_with]
+  unfold afterAlloc
+  rcases Gen.Fn.try_alloc_layout E M ⟨rsz, ral⟩ t.st with ⟨s', o⟩
+  cases o with
+  | ok p =>
+    simp only []
+    rcases f 0 { t with st := s', calls := t.calls ++ [0] } with ⟨t', o2⟩
+    cases o2 with
+    | ok v => simp only [bind, read_val_last, afterInit]
+    | _ => rfl
+  | _ => rfl
+
+/-! ## `alloc_slice_try_fill_with` / `alloc_slice_try_fill_iter`: an initialiser that may fail per element -/
+
+/-- every element succeeds: the same writes and calls as `alloc_slice_fill_with`, then the exit branch of the loop -/
+theorem try_fill_loop_ok (E M esz eal : Nat) (isOk : Val → Bool) (len : Nat) (g : Nat → Val) (lay : Layout) (base dst : Nat) :
+    ∀ (n i0 : Nat) (t : TS), (∀ k, k < n → isOk (g (i0 + k)) = true) →
+    Gen.Fn.t_alloc_slice_try_fill_with.loop E M esz eal isOk len (pureClo g) lay base dst n i0 t =
+      Gen.Fn.t_alloc_slice_try_fill_with.loop E M esz eal isOk len (pureClo g) lay base dst 0 (i0 + n)
+        { t with wr := t.wr ++ (List.range n).map (fun k => (dst + (i0 + k) * esz, g (i0 + k))),
+                 calls := t.calls ++ (List.range n).map (fun k => i0 + k) } := by
+  intro n
+  induction n with
+  | zero => intro i0 t _; simp [Gen.Fn.t_alloc_slice_try_fill_with.loop]
+  | succ n ih =>
+    intro i0 t hok
+    have h0 : isOk (g i0) = true := by simpa using hok 0 (by omega)
+    conv => lhs; unfold Gen.Fn.t_alloc_slice_try_fill_with.loop
+    simp only [call, pureClo, bind, h0, if_true, write]
+    rw [ih (i0 + 1) _ (fun k hk => by have := hok (k + 1) (by omega); rwa [show i0 + (k + 1) = i0 + 1 + k by omega] at this)]
+    have h1 := range_shift n i0 (fun j => (dst + j * esz, g j))
+    have h2 := range_shift' n i0
+    simp only [List.append_assoc, List.singleton_append, h1, h2]
+    congr 1
+    omega
+
+/-- the first failing element is `e`: elements before it are written, the closure was called for `i0..=e`, then the whole block
+goes back through the private `dealloc` and the error value is handed to the caller -/
+theorem try_fill_loop_err (E M esz eal : Nat) (isOk : Val → Bool) (len : Nat) (g : Nat → Val) (e : Nat) (lay : Layout) (base dst : Nat) :
+    ∀ (n i0 : Nat) (t : TS), i0 ≤ e → e < i0 + n → (∀ j, i0 ≤ j → j < e → isOk (g j) = true) → isOk (g e) = false →
+    Gen.Fn.t_alloc_slice_try_fill_with.loop E M esz eal isOk len (pureClo g) lay base dst n i0 t =
+      bind (liftS (Gen.Fn.dealloc E M base lay)
+        { t with wr := t.wr ++ (List.range (e - i0)).map (fun k => (dst + (i0 + k) * esz, g (i0 + k))),
+                 calls := t.calls ++ (List.range (e - i0 + 1)).map (fun k => i0 + k) })
+        fun t' _ => (t', .ok (.error (g e))) := by
+  intro n
+  induction n with
+  | zero => intro i0 t h1 h2; omega
+  | succ n ih =>
+    intro i0 t h1 h2 hok herr
+    conv => lhs; unfold Gen.Fn.t_alloc_slice_try_fill_with.loop
+    by_cases he : i0 = e
+    · subst he
+      simp [call, pureClo, bind, herr]
+    · have h0 : isOk (g i0) = true := hok i0 (Nat.le_refl _) (by omega)
+      simp only [call, pureClo, bind, h0, if_true, write]
+      rw [ih (i0 + 1) _ (by omega) (by omega) (fun j hj1 hj2 => hok j (by omega) hj2) herr]
+      have e1 : e - i0 = (e - (i0 + 1)) + 1 := by omega
+      have h1' := range_shift (e - (i0 + 1)) i0 (fun j => (dst + j * esz, g j))
+      have h2' := range_shift' (e - (i0 + 1) + 1) i0
+      rw [e1]
+      simp only [List.append_assoc, List.singleton_append, h1', h2']
+      rfl
+
+/-- `alloc_slice_try_fill_with(len, f)` with every `f(i)` an `Ok`: the slice of `alloc_slice_fill_with`, wrapped in `Ok` -/
+theorem gen_alloc_slice_try_fill_with_ok (E M esz eal len : Nat) (isOk : Val → Bool) (g : Nat → Val) (t : TS)
+    (hok : ∀ k, k < len → isOk (g k) = true) :
+    Gen.Fn.t_alloc_slice_try_fill_with E M esz eal isOk len (pureClo g) t =
+      match arrayLayout esz eal len with
+      | none => (t, .panic)
+      | some total => afterAlloc t (Gen.Fn.alloc_layout E M ⟨total, eal⟩ t.st) fun s' p => (filled t s' esz p len g, .ok (.ok (p, len))) := by
+  unfold Gen.Fn.t_alloc_slice_try_fill_with
+  cases h : arrayLayout esz eal len with
+  | none => rfl
+  | some total =>
+    have ht := arrayLayout_some h
+    simp only [bind_liftS]
+    congr 1
+    funext s' p
+    rw [try_fill_loop_ok E M esz eal isOk len g _ p p len 0 _ (fun k hk => by simpa using hok k hk)]
+    simp [Gen.Fn.t_alloc_slice_try_fill_with.loop, ht, filled]
+
+/-- C11 for `alloc_slice_try_fill_with`: the first `Err` at index `e < len` — elements `0..e` written, `f` called for `0..=e` and
+never again, the block released through `dealloc(base, layout)` with the layout it was reserved with, the error returned -/
+theorem gen_alloc_slice_try_fill_with_err (E M esz eal len : Nat) (isOk : Val → Bool) (g : Nat → Val) (e : Nat) (he : e < len) (t : TS)
+    (hok : ∀ j, j < e → isOk (g j) = true) (herr : isOk (g e) = false) :
+    Gen.Fn.t_alloc_slice_try_fill_with E M esz eal isOk len (pureClo g) t =
+      match arrayLayout esz eal len with
+      | none => (t, .panic)
+      | some total => afterAlloc t (Gen.Fn.alloc_layout E M ⟨total, eal⟩ t.st) fun s' p =>
+          bind (liftS (Gen.Fn.dealloc E M p ⟨total, eal⟩)
+            { t with st := s', wr := t.wr ++ (List.range e).map (fun i => (p + i * esz, g i)), calls := t.calls ++ List.range (e + 1) })
+            fun t' _ => (t', .ok (.error (g e))) := by
+  unfold Gen.Fn.t_alloc_slice_try_fill_with
+  cases h : arrayLayout esz eal len with
+  | none => rfl
+  | some total =>
+    simp only [bind_liftS]
+    congr 1
+    funext s' p
+    rw [try_fill_loop_err E M esz eal isOk len g e _ p p len 0 _ (by omega) (by omega) (fun j _ hj => hok j hj) herr]
+    simp [bind_liftS]
+
+/-- `alloc_slice_try_fill_iter(iter)` is `alloc_slice_try_fill_with(iter.len(), |_| iter.next().expect(..))` -/
+theorem gen_alloc_slice_try_fill_iter (E M esz eal : Nat) (isOk : Val → Bool) (items : List Val) (claimed : Nat) (t : TS) :
+    Gen.Fn.t_alloc_slice_try_fill_iter E M esz eal isOk items claimed t =
+      Gen.Fn.t_alloc_slice_try_fill_with E M esz eal isOk claimed (iterClo items) t := by
+  unfold Gen.Fn.t_alloc_slice_try_fill_iter
+  simp only [bind_ok_id]
+  rfl
+
 /-- non-vacuity: a failed allocation leaves both logs untouched (`afterAlloc` on a failure) -/
 example (t : TS) (s' : St) (k : St → Nat → TS × Outcome Nat) :
     (afterAlloc t (s', (Outcome.err : Outcome Nat)) k).1.wr = t.wr ∧ (afterAlloc t (s', (Outcome.err : Outcome Nat)) k).1.calls = t.calls :=
@@ -490,6 +644,11 @@ example (t : TS) (s' : St) (k : St → Nat → TS × Outcome Nat) :
 #print axioms gen_alloc_slice_copy
 #print axioms gen_try_alloc_slice_copy
 #print axioms gen_alloc_str
+#print axioms gen_alloc_try_with
+#print axioms gen_alloc_slice_try_fill_with_ok
+#print axioms gen_alloc_slice_try_fill_with_err
+#print axioms gen_alloc_slice_try_fill_iter
+#print axioms gen_try_alloc_try_with
 #print axioms gen_alloc_slice_fill_clone
 #print axioms gen_alloc_slice_fill_default
 #print axioms gen_alloc_slice_fill_iter
